@@ -20,16 +20,16 @@ def run_config(chk, tier, cfgname):
     chk.not_decided += ["the global induction over heap graphs and histories (paper argument, DESIGN.md §7)",
                         "exactness of user Collect::trace impls (C15/C16 cover derived and provided ones)",
                         "Vec-backed queue correctness (trusted)"]
-    typestate.apply(chk, "O2-trace-table", "trace")
-    typestate.apply(chk, "O3-mark_one-table", "mark_one")
-    typestate.apply(chk, "O1-sweep_one-table", "sweep_one")
-    typestate.apply(chk, "O1-drop_all-table", "drop_all")
-    typestate.apply(chk, "O7-link-table", "link")
+    typestate.apply(chk, "O2-trace-table", "trace", aspects=("safety",))
+    typestate.apply(chk, "O3-mark_one-table", "mark_one", aspects=("safety",))
+    typestate.apply(chk, "O1-sweep_one-table", "sweep_one", aspects=("safety",))
+    typestate.apply(chk, "O1-drop_all-table", "drop_all", aspects=("safety",))
+    typestate.apply(chk, "O7-link-table", "link", aspects=("safety",))
     for t in ("backward_barrier", "backward_barrier_weak", "forward_barrier", "forward_barrier_weak", "root_barrier"):
-        typestate.apply(chk, "O6-" + t + "-table", t)
-    typestate.apply(chk, "O6-adoption-paths", "adopt")
-    typestate.apply(chk, "O6-root-paths", "root_paths")
-    typestate.report_automaton(chk, ["S1", "S2", "S3", "S7", "PANIC", "ANALYSIS"])
+        typestate.apply(chk, "O6-" + t + "-table", t, aspects=("safety",))
+    typestate.apply(chk, "O6-adoption-paths", "adopt", aspects=("safety",))
+    typestate.apply(chk, "O6-root-paths", "root_paths", aspects=("safety",))
+    typestate.report_automaton(chk, ["S1", "S2", "S3", "S7", "ANALYSIS"])
     common.protocol_rows(chk, prog, "O5-O8-protocol", ["collect_debt", "finish_cycle", "start_sweeping", "cycle_debt"],
                          per_method=False)
     # O1 free-site discipline
